@@ -274,11 +274,17 @@ func genStep(rt *rapid.T, p *Profile, cfg *Config, i int) Step { //nolint:cyclop
 		st.N = genLen(rt, p, "n")
 		st.Seed = rapid.Uint64Range(0, 1<<20).Draw(rt, "seed")
 		st.Content = rapid.SampledFrom([]string{"", "", "", "zero", "stun", "chandata", "x4000"}).Draw(rt, "content")
+		if cfg.isStream(st.C) {
+			st.Split = rapid.SampledFrom([]int{0, 0, 1, 4, 20, 32, 36}).Draw(rt, "split")
+		}
 	case "ChannelData":
 		st.Ch = rapid.OneOf(rapid.IntRange(0, 2), rapid.IntRange(0, len(ChannelSlots)-1)).Draw(rt, "ch")
 		st.N = genLen(rt, p, "n")
 		st.Seed = rapid.Uint64Range(0, 1<<20).Draw(rt, "seed")
 		st.Content = rapid.SampledFrom([]string{"", "", "", "zero", "stun", "chandata", "x4000"}).Draw(rt, "content")
+		if cfg.isStream(st.C) {
+			st.Split = rapid.SampledFrom([]int{0, 0, 1, 4, 4, 4, 8}).Draw(rt, "split") // 4: right behind the ChannelData header
+		}
 		if rapid.IntRange(0, 3).Draw(rt, "nopad") == 0 {
 			st.Pad = "none"
 		}
